@@ -50,3 +50,45 @@ package main
 //@   modifies s.stats.DecodedCount
 //@   loop 1
 //@     invariant opts != nil && opts == old(opts) && opts.SFlowUDPSize >= 0 && s != nil
+
+// ---- receive loops: every datagram handed to the workers satisfies the channel invariant -------------
+
+//@ func (*IPFIX).run
+//@   requires opts != nil && opts.IPFIXUDPSize >= 0
+//@   opt nonterminating
+//@   modifies i, mCache, ipfix.InfoModel
+//@   loop 1
+//@     invariant i != nil && opts != nil && opts == old(opts) && opts.IPFIXUDPSize >= 0 && conn != nil
+//@     decreases i.workers - n
+//@   loop 2
+//@     invariant i != nil && opts != nil && opts == old(opts) && opts.IPFIXUDPSize >= 0 && conn != nil && wellFormed(mCache)
+
+//@ func (*NetflowV9).run
+//@   requires opts != nil && opts.NetflowV9UDPSize >= 0
+//@   opt nonterminating
+//@   modifies i, mCacheNF9
+//@   loop 1
+//@     invariant i != nil && opts != nil && opts == old(opts) && opts.NetflowV9UDPSize >= 0 && conn != nil
+//@     decreases i.workers - n
+//@   loop 2
+//@     invariant i != nil && opts != nil && opts == old(opts) && opts.NetflowV9UDPSize >= 0 && conn != nil && wellFormed9(mCacheNF9)
+
+//@ func (*NetflowV5).run
+//@   requires opts != nil && opts.NetflowV5UDPSize >= 0
+//@   opt nonterminating
+//@   modifies i
+//@   loop 1
+//@     invariant i != nil && opts != nil && opts == old(opts) && opts.NetflowV5UDPSize >= 0 && conn != nil
+//@     decreases i.workers - n
+//@   loop 2
+//@     invariant i != nil && opts != nil && opts == old(opts) && opts.NetflowV5UDPSize >= 0 && conn != nil
+
+//@ func (*SFlow).run
+//@   requires opts != nil && opts.SFlowUDPSize >= 0
+//@   opt nonterminating
+//@   modifies s
+//@   loop 1
+//@     invariant s != nil && opts != nil && opts == old(opts) && opts.SFlowUDPSize >= 0 && s.conn != nil
+//@     decreases s.workers - i
+//@   loop 2
+//@     invariant s != nil && opts != nil && opts == old(opts) && opts.SFlowUDPSize >= 0 && s.conn != nil
